@@ -154,10 +154,16 @@ type caseT struct {
 	Desc    string  `json:"desc"`
 	Ch      byte    `json:"channel"`
 	Pre     []deliv `json:"pre,omitempty"` // well-formed deliveries that precede the message under test
-	Hex     string  `json:"hex,omitempty"`
-	raw     []byte
-	pre     [][]byte
-	preCh   []byte
+	// claimed-position sequences: what the preceding delivery is, for attributing a failure that the
+	// claim alone causes (the gossip routines run once after the claim, before the message under test)
+	PreMsg   string `json:"pre_msg,omitempty"`
+	PreField string `json:"pre_field,omitempty"`
+	PreClass string `json:"pre_class,omitempty"`
+	PreDesc  string `json:"pre_desc,omitempty"`
+	Hex      string `json:"hex,omitempty"`
+	raw      []byte
+	pre      [][]byte
+	preCh    []byte
 }
 
 func (c *caseT) bytes() []byte {
@@ -206,8 +212,10 @@ type outcome struct {
 	Queued    int // messages the reactor forwarded to the consensus state's queue
 	// the rejection oracle applies to this case
 	RejectExpected bool
-	GossipSent     int // messages the gossip routines sent to the peer
-	GossipRuns     int
+	// the violations were caused by the preceding claim alone (attributed to caseT.Pre*)
+	AttrPre    bool
+	GossipSent int // messages the gossip routines sent to the peer
+	GossipRuns int
 }
 
 func (o *outcome) viol(oracle, f string, a ...interface{}) {
@@ -363,6 +371,15 @@ func (e *consEnv) run(cs *caseT) *outcome {
 		c.ConR.Receive(cs.preCh[i], p, pre)
 		e.drain(c, out)
 	}
+	if cs.PreField != "" && c.N.Failed == nil && psOf(p) != nil && consensus.VerifC18PeerDigest(psOf(p)) != digPre {
+		e.gossip(c, p, psOf(p), out, "after the peer's claim alone ("+cs.PreDesc+")")
+		if len(out.Viols) > 0 {
+			out.AttrPre = true
+			out.Stage = "claim-gossip-panic"
+			e.drop(cs.State)
+			return out
+		}
+	}
 	stamp0 := consensus.VerifC18NodeStamp(c.N)
 	key0 := c.Key
 	if len(cs.pre) > 0 || stamp0 != c.Stamp {
@@ -476,7 +493,9 @@ func (e *consEnv) run(cs *caseT) *outcome {
 			out.viol("lock-leaked", "locks held after the gossip routines ran: %s", strings.Join(h, ", "))
 		}
 	}
-	if failed || pn != nil || key1 != key0 || len(cs.pre) > 0 || consensus.VerifC18QueueLen(c.N.CS) != 0 {
+	// preceding deliveries may have moved the node as well: compare with the key the node was built with
+	preMoved := len(cs.pre) > 0 && (failed || consensus.VerifC18NodeKey(c.N) != c.Key)
+	if failed || pn != nil || key1 != key0 || preMoved || consensus.VerifC18QueueLen(c.N.CS) != 0 {
 		out.NodeDirty = true
 		e.drop(cs.State)
 	} else {
